@@ -37,6 +37,7 @@ import (
 //     fail     - | parse | setup | make | first | startup      (stage at which loading this config fails)
 //     flags    r  the first OnRestart callback of this instance returns an error
 //              s  the first OnShutdown callback of this instance returns an error
+//              w  the first OnShutdown callback of this instance takes 150 ms (only matters to c16.signal)
 //
 //   out = segment|segment|...      one per op:  <res>;<events>;<wait bits>
 //     res     ok | err | noinst
@@ -352,7 +353,18 @@ func c16SetupGen(c *casket.Controller) error {
 		reg("su", c.OnStartup, flags["startup"])
 		reg("rs", c.OnRestart, flags["r"])
 		reg("rf", c.OnRestartFailed, false)
-		reg("sd", c.OnShutdown, flags["s"])
+		slow := flags["w"]
+		c.OnShutdown(func() error {
+			c16rec.log("sd", g, 0)
+			if slow {
+				time.Sleep(150 * time.Millisecond)
+			}
+			if flags["s"] {
+				return fmt.Errorf("veriffake: sd callback fails")
+			}
+			return nil
+		})
+		c.OnShutdown(func() error { c16rec.log("sd", g, 1); return nil })
 		reg("fd", c.OnFinalShutdown, false)
 	}
 	return nil
@@ -471,7 +483,7 @@ func c16ParseCfg(s string) (c16Cfg, bool) {
 		return c, false
 	}
 	for _, ch := range p[2] {
-		if ch != 'r' && ch != 's' {
+		if ch != 'r' && ch != 's' && ch != 'w' {
 			return c, false
 		}
 	}
